@@ -119,6 +119,11 @@ func c14IxShapes(g *Gen) error {
 		{"lib/util/lifted/influx/meta/data.go", "Data.createIndexGroupIfNeeded", "src_createIndexGroupIfNeeded"},
 		{"lib/util/lifted/influx/meta/data.go", "Data.CreateIndexGroup", "src_CreateIndexGroup"},
 		{"lib/util/lifted/influx/meta/retentionpolicy.go", "RetentionPolicyInfo.ShardGroupByTimestampAndEngineType", "src_ShardGroupByTimestamp"},
+		// schema clean after a prune (Schema.lean)
+		{"lib/util/lifted/influx/meta/measurement.go", "MeasurementInfo.SchemaClean", "src_msSchemaClean"},
+		{"lib/util/lifted/influx/meta/measurement.go", "TimeReserveHigh32", "src_TimeReserveHigh32"},
+		{"lib/util/lifted/influx/meta/data.go", "Data.SchemaClean", "src_dataSchemaClean"},
+		{"lib/util/lifted/influx/meta/data.go", "Data.UpdateSchema", "src_UpdateSchema"},
 		// tier moves (Tier.lean)
 		{"engine/engine.go", "EngineImpl.FetchShardsNeedChangeStore", "src_FetchShardsNeedChangeStore"},
 		{"lib/util/lifted/influx/meta/retentionpolicy.go", "RetentionPolicyInfo.TierDuration", "src_TierDuration"},
